@@ -1,6 +1,8 @@
 import Proofs.Conservation
 import Properties.C03
 import CModel.Generated.Consts
+import Proofs.Orphans
+import Proofs.LedgerDag
 /-!
 # C13 — vertices arriving before their parents are parked and later admitted
 
@@ -64,6 +66,73 @@ theorem retry_admission_checks_parents (b : Book) (v : Vertex) (rep : Nat) (hg :
     ∃ l r, CheckedIn b l ∧ CheckedIn b r ∧ l.hash = v.left ∧ r.hash = v.right :=
   addLeafMemorized_parents_checked b v rep hg h
 
+/-! ### Nothing is lost, nothing is invented: runs of deliveries and retry ticks
+
+`DOp.deliver v` is `AddLeaf v` (any vertex, valid or not, any number of times), `DOp.tick` one tick of the
+retry loop. `AllBenign b0 ops`: every call of the run reported "admitted", "parked: parent missing" or
+"already known" - in particular no call reported an exhausted buffer / retry bound, and no validation
+failed (these are visible outcomes: the node logs them, the harness reads them). -/
+
+/-- **Every delivered vertex is in the ledger or in the buffer; nothing else entered the ledger; nothing
+left it.** For every interleaving of deliveries (duplicates included) and retry ticks. -/
+theorem delivered_is_admitted_or_parked (b0 : Book) (hq : b0.parked = []) (ops : List DOp) (hb : AllBenign b0 ops) :
+    (∀ v, DOp.deliver v ∈ ops →
+      (drun b0 ops).hasVertex v.hash = true ∨ (drun b0 ops).cpHasVertex v.hash = true ∨ v ∈ (drun b0 ops).parked.map (·.1)) ∧
+    (∀ u ∈ (drun b0 ops).verts, u ∈ b0.verts ∨ DOp.deliver u ∈ ops) ∧
+    (∀ u ∈ b0.verts, u ∈ (drun b0 ops).verts) ∧
+    (∀ p ∈ (drun b0 ops).parked, DOp.deliver p.1 ∈ ops) := by
+  have h := orphanInv_run ops (orphanInv_start b0 hq) hb
+  simp only [List.nil_append] at h
+  exact ⟨h.accounted, h.onlyDelivered, h.kept, h.parkedDelivered⟩
+
+/-- **At quiescence the ledger is complete**: when the buffer has drained, every delivered vertex is held. -/
+theorem quiescent_ledger_complete (b0 : Book) (hq : b0.parked = []) (ops : List DOp) (hb : AllBenign b0 ops)
+    (hdone : (drun b0 ops).parked = []) (v : Vertex) (hv : DOp.deliver v ∈ ops) :
+    (drun b0 ops).hasVertex v.hash = true ∨ b0.cpHasVertex v.hash = true := by
+  have h := orphanInv_run ops (orphanInv_start b0 hq) hb
+  simp only [List.nil_append] at h
+  rcases h.accounted v hv with a | a | a
+  · exact Or.inl a
+  · right; unfold cpHasVertex at a ⊢; rw [← h.storage]; exact a
+  · rw [hdone] at a; cases a
+
+/-- **The order of delivery does not matter.** Two runs from the same ledger that deliver the same vertices
+(in any two orders, with any duplicates and any placement of the retry ticks - parents-first delivery is
+one of them) and both end with a drained buffer hold the same vertex hashes. -/
+theorem delivery_order_does_not_matter (b0 : Book) (hq : b0.parked = []) (ops1 ops2 : List DOp)
+    (hb1 : AllBenign b0 ops1) (hb2 : AllBenign b0 ops2)
+    (hsame : ∀ v, DOp.deliver v ∈ ops1 ↔ DOp.deliver v ∈ ops2)
+    (hd1 : (drun b0 ops1).parked = []) (hd2 : (drun b0 ops2).parked = [])
+    (hfresh : ∀ v, DOp.deliver v ∈ ops1 → b0.cpHasVertex v.hash = false) (x : Hash) :
+    (drun b0 ops1).hasVertex x = (drun b0 ops2).hasVertex x := by
+  have key : ∀ (o1 o2 : List DOp), AllBenign b0 o1 → AllBenign b0 o2 → (∀ v, DOp.deliver v ∈ o1 → DOp.deliver v ∈ o2) →
+      (drun b0 o2).parked = [] → (∀ v, DOp.deliver v ∈ o1 → b0.cpHasVertex v.hash = false) →
+      (drun b0 o1).hasVertex x = true → (drun b0 o2).hasVertex x = true := by
+    intro o1 o2 b1 b2 hs d2 hf hx
+    have i1 := orphanInv_run o1 (orphanInv_start b0 hq) b1
+    have i2 := orphanInv_run o2 (orphanInv_start b0 hq) b2
+    simp only [List.nil_append] at i1 i2
+    obtain ⟨u, hu, hux⟩ := (hasVertex_iff _ x).mp hx
+    rcases i1.onlyDelivered u hu with h0 | hdl
+    · exact (hasVertex_iff _ x).mpr ⟨u, i2.kept u h0, hux⟩
+    · rcases quiescent_ledger_complete b0 hq o2 b2 d2 u (hs u hdl) with a | a
+      · rw [← hux]; exact a
+      · rw [hf u hdl] at a; cases a
+  cases h1 : (drun b0 ops1).hasVertex x with
+  | true => exact (key ops1 ops2 hb1 hb2 (fun v => (hsame v).mp) hd2 hfresh h1).symm
+  | false =>
+    cases h2 : (drun b0 ops2).hasVertex x with
+    | false => rfl
+    | true =>
+      have := key ops2 ops1 hb2 hb1 (fun v => (hsame v).mpr) hd1 (fun v hv => hfresh v ((hsame v).mpr hv)) h2
+      rw [h1] at this; cases this
+
+/-- a vertex can only be admitted by a call that reports success: what is admitted is exactly the object
+that was delivered (not a look-alike with the same hash) -/
+theorem admitted_is_what_was_delivered (b0 : Book) (hq : b0.parked = []) (ops : List DOp) (hb : AllBenign b0 ops)
+    (u : Vertex) (hu : u ∈ (drun b0 ops).verts) (hnew : u ∉ b0.verts) : DOp.deliver u ∈ ops :=
+  ((delivered_is_admitted_or_parked b0 hq ops hb).2.1 u hu).resolve_left hnew
+
 /-- Generated obligations: the bounds are the ones in today's source. -/
 theorem gen_bounds : Generated.accountant_maxArraySize = Book.maxArraySize ∧
     Generated.accountant_maxRepeats = Book.maxRepeats := by decide
@@ -78,5 +147,12 @@ example : ((base.addLeaf c1).1.parked.map (·.1.hash)) = [7] ∧
     (((base.addLeaf p1).1.addLeaf c1).1.verts.map (·.hash)) ∧
     ((((base.addLeaf c1).1.addLeaf p1).1.retryParked).1.verts.map (·.hash)) = [1, 3, 5, 7] := by
   refine ⟨rfl, rfl, rfl⟩
+/-- the same as a run: child first, then parent, then one tick; every outcome is benign, the buffer drains -/
+example : AllBenign base [.deliver c1, .deliver p1, .tick] ∧ (drun base [.deliver c1, .deliver p1, .tick]).parked = [] ∧
+    (drun base [.deliver c1, .deliver p1, .tick]).verts.map (·.hash) = [1, 3, 5, 7] := by
+  refine ⟨⟨?_, ?_, ?_, trivial⟩, rfl, rfl⟩
+  · intro r hr; cases hr; exact Or.inl rfl
+  · intro r hr; cases hr; trivial
+  · intro r hr; cases hr; trivial
 
 end Props.C13
